@@ -52,6 +52,10 @@ def rand_val(rng, want):
     r = rng.random()
     if r < 0.08:
         return rng.choice([["str"], ["int", 65], ["none"], ["list", bytes(rng.getrandbits(8) for _ in range(want)).hex()]])
+    if r < 0.16:
+        # an array cdata of exactly the slice's byte length (other lengths are not generated: the released
+        # code compares with an uninitialised length, so their outcome is not defined)
+        return ["cdata", bytes(rng.getrandbits(8) for _ in range(want)).hex(), rng.choice(["char", "short"])]
     k = want if rng.random() < 0.75 else max(0, want + rng.choice([-1, 1, 2, -2]))
     data = bytes(rng.getrandbits(8) for _ in range(k)).hex()
     return [rng.choice(["bytes", "bytes", "bytearray", "memoryview", "array"]), data]
@@ -179,7 +183,7 @@ def oracle_step(ref, op):
         if kind == "get":
             return ["bytes", bytes([cur]).hex()]
         v = op[2]
-        if v[0] != "bytes" or len(v[1]) != 2:
+        if v[0] != "bytes" or len(v[1]) != 2:          # also a cdata: items need a bytes of length 1
             return ["err", "TypeError"]
         ref[key[1]] = bytes.fromhex(v[1])[0]
         return ["done"]
@@ -192,7 +196,7 @@ def oracle_step(ref, op):
     if kind == "get":
         return ["bytes", bytes(ref[sl]).hex()]
     v = op[2]
-    if v[0] not in ("bytes", "bytearray", "memoryview", "array"):
+    if v[0] not in ("bytes", "bytearray", "memoryview", "array", "cdata"):
         return ["err", "TypeError"]
     tmp = bytearray(ref)
     tmp[sl] = bytes.fromhex(v[1])
@@ -200,6 +204,15 @@ def oracle_step(ref, op):
         return ["err", "ValueError"]
     ref[:] = tmp
     return ["done"]
+
+
+def finding_key(op, got, want, mem, mem_before):
+    """cdata_slice_source: slice assignment whose right-hand side is an array cdata of exactly the slice's
+    byte length; the oracle accepts it, the implementation raised ValueError and changed nothing"""
+    if (op[0] == "set" and op[1][0] == "s" and op[2][0] == "cdata" and want == ["done"]
+            and got == ["err", "ValueError"] and mem == mem_before):
+        return "cdata_slice_source"
+    return None
 
 
 # ------------------------------------------------------------------------------------------ literals
@@ -222,7 +235,7 @@ def key_lit(k):
 def val_lit(v):
     if v[0] == "bytes":
         return "(VBytes %s)" % zl(bytes.fromhex(v[1]))
-    if v[0] in ("bytearray", "memoryview", "array"):
+    if v[0] in ("bytearray", "memoryview", "array", "cdata"):
         return "(VBuf %s)" % zl(bytes.fromhex(v[1]))
     return "VOther"
 
@@ -270,7 +283,7 @@ def evaluate(ctx, cases):
     for T, size in FB_TYPES:
         if out["sizes"].get(T) != size:
             ctx.obligation_broken("C19 type table: sizeof(%s) = %r, harness says %d" % (T, out["sizes"].get(T), size))
-    hist, hist_owner, scalar, scalar_owner, mm, mm_owner = [], [], [], [], [], []
+    hist, hist_owner, scalar, scalar_owner, mm, mm_owner, spec, spec_owner = [], [], [], [], [], [], [], []
     for c, r in zip(cases, out["results"]):
         ctx.count(max(1, len(c.get("ops", []))))
         ctx.hist("kind", c["kind"])
@@ -282,10 +295,20 @@ def evaluate(ctx, cases):
             off, n = c["off"], c["n"]
             ref = bytearray(init[off:off + n])
             bad = False
+            tainted = False
             for i, (op, got, memhex) in enumerate(zip(c["ops"], r["outs"], r["mems"])):
+                before = bytes(ref)
                 want = oracle_step(ref, op)
                 expect_mem = init[:off] + bytes(ref) + init[off + n:]
                 ctx.hist("outcome", got[0] if got[0] != "err" else got[1])
+                key = finding_key(op, got, want, bytes.fromhex(memhex), init[:off] + before + init[off + n:])
+                if key:
+                    ctx.violation(dict(c, ops=c["ops"][:i + 1]),
+                                  "%r: an array cdata of exactly the slice's %d bytes is refused with %r (a bytes-like "
+                                  "source of that length is accepted)" % (op, len(op[2][1]) // 2, got), key)
+                    ref[:] = before            # follow the implementation: nothing was stored
+                    tainted = True
+                    continue
                 if got != want or bytes.fromhex(memhex) != expect_mem:
                     ctx.violation(dict(c, ops=c["ops"][:i + 1]),
                                   "buffer window [%d:%d) of %d bytes (%s): %r gives %r, memory %s; a bytearray gives %r, "
@@ -300,6 +323,8 @@ def evaluate(ctx, cases):
                 continue
             if c["ops"]:
                 ctx.nontrivial(("hist", c["init"], off, n, c["ops"]))
+            if tainted:
+                continue                    # the model describes the length check with a defined length
             lits = [out_lit(o) for o in r["outs"]]
             if any(x is None for x in lits):
                 ctx.mismatch(c, "outcome outside the model's vocabulary: %r" % r["outs"], "C19.Model.run vs ffi.buffer")
@@ -308,6 +333,10 @@ def evaluate(ctx, cases):
             hist.append(("(%d, %d, %s, [%s])" % (off, n, zl(init), "; ".join(op_lit(o) for o in c["ops"])),
                          "(%s, [%s])" % (zl(final), "; ".join(lits))))
             hist_owner.append(c)
+            # Spec.v against the real bytearray `ref` (its final content and the oracle's outcomes = lits)
+            spec.append(("(%s, [%s])" % (zl(init[off:off + n]), "; ".join(op_lit(o) for o in c["ops"])),
+                         "(%s, [%s])" % (zl(bytes(ref)), "; ".join(lits))))
+            spec_owner.append(c)
         elif c["kind"] == "fb":
             L, size, o = len(bytes.fromhex(c["data"])), c["size"], r["out"]
             if c["obj"] == "array_H":
@@ -367,9 +396,12 @@ def evaluate(ctx, cases):
             ctx.nontrivial(("size", c["what"], c["ctype"], c["size"]))
     for name, lst, owner, fexpr, eqb in (
             ("run", hist, hist_owner, "fun c => match c with (off, n, mem, ops) => run off n mem ops end", "run_eqb"),
+            ("Spec.spec_run vs CPython bytearray", spec, spec_owner,
+             "fun c => match c with (w, ops) => spec_run w ops end", "run_eqb"),
             ("from_buffer_length / buffer_size", scalar, scalar_owner, "fun r : res Z => r", "resz_eqb"),
             ("memmove", mm, mm_owner, "fun r : res (list Z) => r", "resl_eqb")):
-        bad, outs, err = vlib.coq_mismatches(["C19.Model"], fexpr, eqb, lst, prelude="Open Scope Z_scope.", shard=250)
+        bad, outs, err = vlib.coq_mismatches(["C19.Model", "C19.Spec"], fexpr, eqb, lst, prelude="Open Scope Z_scope.",
+                                             shard=250)
         if err:
             ctx.obligation_broken("C19 model evaluation (%s)" % name, err)
         for i in bad:
